@@ -289,6 +289,13 @@ def gen_plan(seed: int, cls: str) -> dict:
         for op in ops:
             if rf.random() < 0.45:
                 op['faults'] = gen_faults(rf, op, knobs)
+        # a directory sits where the file should be (what a container runtime leaves when the source of a single-file
+        # bind mount is missing): the write / read must fail, not "succeed" somewhere else
+        for op in ops:
+            tgt = op.get('sink') or op.get('src')
+            if op['op'] in ('write', 'read', 'read_all') and tgt in SINKS_PATH and rf.random() < 0.04:
+                op['obstruct'] = True
+                op.pop('faults', None)
         if 'corrupt' in knobs['fault_kinds']:
             # stored bytes change under pane's feet (media error, another process truncating the file): the
             # next read may fail or return anything, but must terminate, close its handle and leave streams alone
@@ -807,6 +814,9 @@ class Exec:
                     sink.obj.write(before)       # not flushed: it may still sit in the caller's text layer when pane is called
             except Exception as e:
                 raise HarnessError(f"caller stream prep failed: {e!r}")
+        obstructed = bool(op.get('obstruct')) and not is_stream and sink.name != 'str0'
+        if obstructed:
+            self._obstruct(sink)
         target = sink.obj if is_stream else (None if sink.name == 'str0' else self.path_arg(sink.name, op['pathkind']))
         kw = dict(opts)
         if ent['H'] is not None:
@@ -848,6 +858,17 @@ class Exec:
             self.nontrivial = True
         self.trace.add('write', i, sink.name, fmt, via, canon(opts), 'raised:' + type(raised).__name__ if raised else 'ok',
                        fired, self.fs.counters['raw_writes'], before, after)
+        if obstructed:
+            still_dir = os.path.isdir(self.path_arg(sink.name, 'str'))
+            self._unobstruct(sink)
+            sink.state, sink.docs = 'absent', []
+            if raised is None and still_dir:
+                raise Violation('ack_write_unreadable', f"write_{fmt} to {sink.name} returned normally although a directory sits "
+                                                        f"at that path (nothing can have been written there)")
+            if raised is not None:
+                self.count('write_refused_directory_in_the_way')
+                return
+            # the implementation replaced the directory by the file: unusual, but then the content must be right
         if raised is not None:
             if sink.name != 'str0':
                 sink.state = 'torn' if (is_stream or self._path_exists(sink)) else 'absent'
@@ -947,6 +968,26 @@ class Exec:
         except Exception:
             return False
 
+    def _obstruct(self, sink):
+        p = self.path_arg(sink.name, 'str')
+        try:
+            if os.path.isdir(p) and not os.path.islink(p):
+                shutil.rmtree(p)
+            elif os.path.lexists(p):
+                os.remove(p)
+            os.mkdir(p)
+        except OSError as e:
+            raise HarnessError(f"cannot put a directory at {sink.name}: {e!r}")
+        sink.state = 'absent'
+        sink.docs = []
+        self.count('fault_fired:directory_in_the_way')
+        self.nontrivial = True
+
+    def _unobstruct(self, sink):
+        p = self.path_arg(sink.name, 'str')
+        if os.path.isdir(p) and not os.path.islink(p):
+            shutil.rmtree(p, ignore_errors=True)
+
     def _path_exists(self, sink):
         return os.path.exists(self.path_arg(sink.name, 'str'))
 
@@ -970,6 +1011,8 @@ class Exec:
                 raw = f.read()
         except FileNotFoundError:
             raise Violation('ack_write_unreadable', f"path {sink.name} does not exist after an acknowledged write")
+        except OSError as e:
+            raise Violation('ack_write_unreadable', f"path {sink.name} is not a readable file after an acknowledged write: {type(e).__name__}")
         try:
             return raw.decode('utf-8')
         except UnicodeDecodeError as e:
@@ -1039,6 +1082,10 @@ class Exec:
             source = sink.obj
         else:
             source = self.path_arg(sink.name, op['pathkind'])
+        obstructed = bool(op.get('obstruct')) and not is_stream and sink.name != 'str0'
+        if obstructed:
+            self._obstruct(sink)
+            state, docs, strict = 'absent', [], False
         kw = {}
         if ent['H'] is not None:
             kw['custom'] = ent['H']
@@ -1070,6 +1117,8 @@ class Exec:
         else:
             self.fs.disarm()
             self.check_ownership(i, op, sink, opened_before, fds_before, 'on_return')
+        if obstructed:
+            self._unobstruct(sink)
         if isinstance(sink.obj, PipeText) and getattr(source, 'closed', False):
             raise Violation('caller_stream_closed', f"the read end of the caller's pipe {sink.name} was closed by {op['op']}")
         fired = self.fired_summary()
@@ -1385,6 +1434,10 @@ def shrink_candidates(plan, res):
         if op.get('append'):
             c = clone(plan)
             c['ops'][i]['append'] = False
+            yield c
+        if op.get('obstruct'):
+            c = clone(plan)
+            del c['ops'][i]['obstruct']
             yield c
         if op.get('ctext'):
             c = clone(plan)
